@@ -28,10 +28,11 @@ PROP = "C10"
 VARIANTS = ["path", "string"]
 TMP = None
 HEADER = """From Coq Require Import ZArith QArith List Bool.
-From Cobra.IO Require Import Str JVal DictModel DictCheck SbmlId SbmlCheck.
+From Cobra.IO Require Import Str JVal DictModel DictCheck SbmlId SbmlDoc SbmlCheck.
+From Cobra.GPR Require Syntax.
 Import ListNotations.
 Open Scope Z_scope."""
-CODES = {1: "Gallina model of the SBML codec / bound parameters and the implementation differ",
+CODES = {1: "Gallina model of the SBML codec / bound parameters / written document / reader and the implementation differ",
          2: "writing or reading back failed", 12: "reading back failed: a lower bound is above the default upper bound",
          20: "identifier containing __<digits>__ is not restored by the id codec",
          21: "identifier decoding raises (chr() of a number outside the code point range)",
@@ -102,10 +103,23 @@ def truth_table(r):
     return ",".join(genes) + "|" + "".join(bits)
 
 
+def rule_tree(node):
+    """GPR.body as a nested list: None | ["g", id] | ["and"/"or", [children]]"""
+    import ast
+    if node is None:
+        return None
+    if isinstance(node, ast.Name):
+        return ["g", str(node.id)]
+    if isinstance(node, ast.BoolOp):
+        return ["and" if isinstance(node.op, ast.And) else "or", [rule_tree(v) for v in node.values]]
+    return ["?", type(node).__name__]
+
+
 def observe(model):
     o = M.observe(model)
     for r, x in zip(model.reactions, o["rxns"]):
         x["rule"] = truth_table(r)           # gene rules as Boolean functions
+        x["rule_tree"] = rule_tree(r.gpr.body if r.gpr is not None else None)
         x["subsystem"] = ""                 # not among the attributes C10 lists
     for m in o["mets"]:
         m["_bound"] = ["q", 0, 1]
@@ -114,6 +128,10 @@ def observe(model):
         groups.append([str(g.id), ["l", [M.jv(g.name), M.jv(g.kind),
                                          ["l", sorted([M.jv(type(x).__name__ + ":" + x.id) for x in g.members],
                                                       key=repr)]]]])
+    kinds = {"Gene": 0, "Metabolite": 1, "Reaction": 2}
+    o["groups_full"] = [{"id": str(g.id), "name": None if g.name is None else str(g.name), "kind": str(g.kind),
+                         "members": sorted([kinds.get(type(x).__name__, 9), str(x.id)] for x in g.members)}
+                        for g in model.groups]
     # groups ride along in the model-level notes slot of the abstract record (key "\0groups")
     o["notes"] = o["notes"] + [["\x00groups", ["d", sorted(groups)]]]
     return o
@@ -134,6 +152,141 @@ def parse_written(xml_text):
         lb, ub = r.get(FBC + "lowerFluxBound"), r.get(FBC + "upperFluxBound")
         rx.append((r.get("id") or "", lb, params.get(lb), ub, params.get(ub)))
     return sp, gp, rx
+
+
+GRP = "{%s}" % NS["g"]
+
+
+def _xnum(v):
+    return float({"INF": "inf", "-INF": "-inf", "NaN": "nan"}.get(v, v))
+
+
+def _assoc(e):
+    tag = e.tag.replace(FBC, "")
+    if tag == "geneProductRef":
+        return ["g", e.get(FBC + "geneProduct") or ""]
+    if tag in ("and", "or"):
+        return [tag, [_assoc(c) for c in e]]
+    return ["?", tag]
+
+
+def parse_doc(xml_text):
+    """The written document as the `doc` record of coq/theories/IO/SbmlDoc.v (an unset attribute is "")."""
+    root = ET.fromstring(xml_text)
+    model = root.find("s:model", NS)
+    d = {"id": model.get("id") or "", "name": model.get("name") or ""}
+    d["comps"] = [[c.get("id") or "", c.get("name") or ""] for c in model.findall("s:listOfCompartments/s:compartment", NS)]
+    d["species"] = [{"id": x.get("id") or "", "name": x.get("name") or "", "comp": x.get("compartment") or "",
+                     "charge": None if x.get(FBC + "charge") is None else int(x.get(FBC + "charge")),
+                     "formula": x.get(FBC + "chemicalFormula") or "", "boundary": x.get("boundaryCondition") == "true"}
+                    for x in model.findall("s:listOfSpecies/s:species", NS)]
+    d["params"] = [[x.get("id") or "", M.num(_xnum(x.get("value", "NaN"))), x.get("constant") == "true"]
+                   for x in model.findall("s:listOfParameters/s:parameter", NS)]
+    d["rxns"] = []
+    for r in model.findall("s:listOfReactions/s:reaction", NS):
+        refs = {}
+        for side in ("Reactants", "Products"):
+            refs[side] = [[sr.get("species") or "", M.num(_xnum(sr.get("stoichiometry", "NaN")))]
+                          for sr in r.findall("s:listOf%s/s:speciesReference" % side, NS)]
+        gpa = r.find("f:geneProductAssociation", NS)
+        d["rxns"].append({"id": r.get("id") or "", "name": r.get("name") or "", "reversible": r.get("reversible") == "true",
+                          "fast": r.get("fast") == "true", "lb": r.get(FBC + "lowerFluxBound") or "",
+                          "ub": r.get(FBC + "upperFluxBound") or "", "reactants": refs["Reactants"],
+                          "products": refs["Products"], "assoc": None if gpa is None or len(gpa) == 0 else _assoc(gpa[0])})
+    d["gps"] = [[x.get(FBC + "id") or "", x.get(FBC + "name") or "", x.get(FBC + "label") or ""]
+                for x in model.findall("f:listOfGeneProducts/f:geneProduct", NS)]
+    objs = model.find("f:listOfObjectives", NS)
+    d["active"] = "" if objs is None else objs.get(FBC + "activeObjective") or ""
+    d["objs"] = []
+    for o in ([] if objs is None else objs.findall("f:objective", NS)):
+        d["objs"].append([o.get(FBC + "id") or "", o.get(FBC + "type") == "maximize",
+                          [[fo.get(FBC + "reaction") or "", M.num(_xnum(fo.get(FBC + "coefficient", "NaN")))]
+                           for fo in o.findall("f:listOfFluxObjectives/f:fluxObjective", NS)]])
+    d["groups"] = [{"id": g.get(GRP + "id") or "", "name": g.get(GRP + "name") or "", "kind": g.get(GRP + "kind"),
+                    "members": [m.get(GRP + "idRef") or "" for m in g.findall("g:listOfMembers/g:member", NS)]}
+                   for g in model.findall("g:listOfGroups/g:group", NS)]
+    return d
+
+
+def doc_representable(d):
+    nums = [p[1] for p in d["params"]] + [x[1] for r in d["rxns"] for x in r["reactants"] + r["products"]] + \
+           [x[1] for o in d["objs"] for x in o[2]]
+    if any(n[0] == "nan" for n in nums) or any(x[1][0] != "q" for r in d["rxns"] for x in r["reactants"] + r["products"]) \
+            or any(x[1][0] != "q" for o in d["objs"] for x in o[2]):
+        return "nan / infinite number where the document record has a rational"
+    if any(g["kind"] not in (None, "collection", "classification", "partonomy") for g in d["groups"]):
+        return "group kind"
+    return None
+
+
+KINDS = {"collection": "KCollection", "classification": "KClassification", "partonomy": "KPartonomy"}
+
+
+def c_bool(b):
+    return "true" if b else "false"
+
+
+def c_tree(t):
+    if t[0] == "g":
+        return "(Syntax.Gene %s)" % M.c_str(t[1])
+    if t[0] in ("and", "or"):
+        return "(Syntax.Bool Syntax.%s [%s])" % ("And" if t[0] == "and" else "Or", "; ".join(c_tree(x) for x in t[1]))
+    raise ValueError(t)
+
+
+def c_otree(t):
+    return "None" if t is None else "(Some %s)" % c_tree(t)
+
+
+def c_refs(l):
+    return "[" + "; ".join("(%s, %s)" % (M.c_str(k), M.c_q(v)) for k, v in l) + "]"
+
+
+def c_doc(d):
+    comps = "; ".join("(%s, %s)" % (M.c_str(a), M.c_str(b)) for a, b in d["comps"])
+    species = "; ".join("mkSp %s %s %s %s %s %s" % (
+        M.c_str(x["id"]), M.c_str(x["name"]), M.c_str(x["comp"]), "None" if x["charge"] is None else "(Some (%d))" % x["charge"],
+        M.c_str(x["formula"]), c_bool(x["boundary"])) for x in d["species"])
+    params = "; ".join("(%s, %s, %s)" % (M.c_str(i), M.c_eb(v), c_bool(k)) for i, v, k in d["params"])
+    rxns = "; ".join("mkDR %s %s %s %s %s %s %s %s %s" % (
+        M.c_str(r["id"]), M.c_str(r["name"]), c_bool(r["reversible"]), c_bool(r["fast"]), M.c_str(r["lb"]), M.c_str(r["ub"]),
+        c_refs(r["reactants"]), c_refs(r["products"]), c_otree(r["assoc"])) for r in d["rxns"])
+    gps = "; ".join("(%s, %s, %s)" % (M.c_str(a), M.c_str(b), M.c_str(c)) for a, b, c in d["gps"])
+    objs = "; ".join("(%s, %s, %s)" % (M.c_str(i), c_bool(mx), c_refs(fl)) for i, mx, fl in d["objs"])
+    groups = "; ".join("mkDG %s %s %s [%s]" % (
+        M.c_str(g["id"]), M.c_str(g["name"]), "None" if g["kind"] is None else "(Some %s)" % KINDS[g["kind"]],
+        "; ".join(M.c_str(x) for x in g["members"])) for g in d["groups"])
+    return "(mkDoc %s %s [%s] [%s] [%s] [%s] [%s] %s [%s] [%s])" % (
+        M.c_str(d["id"]), M.c_str(d["name"]), comps, species, params, rxns, gps, M.c_str(d["active"]), objs, groups)
+
+
+def smodel_representable(o):
+    if any(x["rule_tree"] is not None and "?" in json.dumps(x["rule_tree"]) for x in o["rxns"]):
+        return "rule tree with a node other than Name / BoolOp"
+    for g in o["groups_full"]:
+        if g["name"] is None or g["kind"] not in KINDS or any(k == 9 for k, _ in g["members"]):
+            return "group name None / kind / member type"
+    return M.representable(o)
+
+
+def c_smodel(o):
+    """an observation as the `smodel` record of coq/theories/IO/SbmlDoc.v"""
+    mets = "; ".join("mkMet %s %s %s %s %s %s %s %s" % (
+        M.c_str(m["id"]), M.c_str(m["name"]), M.c_ostr(m["compartment"]),
+        "None" if m["charge"] is None else "(Some (%d))" % m["charge"][1], M.c_ostr(m["formula"]), M.c_q(m["_bound"]),
+        M.c_items(m["notes"]), M.c_items(m["annotation"])) for m in o["mets"])
+    genes = "; ".join("mkGene %s %s %s %s" % (M.c_str(g["id"]), M.c_str(g["name"]), M.c_items(g["notes"]),
+                                              M.c_items(g["annotation"])) for g in o["genes"])
+    rxns = "; ".join("(mkRxn %s %s %s %s %s %s %s %s %s %s, %s)" % (
+        M.c_str(r["id"]), M.c_str(r["name"]), c_refs(r["stoich"]), M.c_eb(r["lb"]), M.c_eb(r["ub"]), M.c_str(r["rule"]),
+        M.c_q(r["objective"]), M.c_str(r["subsystem"]), M.c_items(r["notes"]), M.c_items(r["annotation"]),
+        c_otree(r["rule_tree"])) for r in o["rxns"])
+    comps = "; ".join("(%s, %s)" % (M.c_str(k), M.c_str(v)) for k, v in o["comps_private"])
+    groups = "; ".join("mkGroup %s %s %s [%s]" % (
+        M.c_str(g["id"]), M.c_str(g["name"]), KINDS[g["kind"]],
+        "; ".join("(%d, %s)" % (k, M.c_str(i)) for k, i in g["members"])) for g in o["groups_full"])
+    return "(mkSModel %s %s [%s] [%s] [%s] [%s] %s [%s])" % (
+        M.c_ostr(o["id"]), M.c_ostr(o["name"]), mets, rxns, genes, comps, c_bool(o["direction"] == "max"), groups)
 
 
 def codec_obs(kind, s):
@@ -160,7 +313,7 @@ def run_impl(spec, seed):
         model = M.build(spec)
         o0 = observe(model)
         out["obs0"] = o0
-        out["skip"] = M.representable(o0)
+        out["skip"] = smodel_representable(o0)
         ids = [(1, m.id) for m in model.metabolites] + [(2, r.id) for r in model.reactions] + \
               [(0, g.id) for g in model.genes] + [(3, g.id) for g in model.groups]
         ids += [(rng.randrange(4), rng.choice(EXTRA_IDS)) for _ in range(3)]
@@ -176,6 +329,7 @@ def run_impl(spec, seed):
             out["write_error"] = {"err": type(e).__name__, "msg": str(e)[:200]}
         if written is not None:
             sp, gp, rx = parse_written(written)
+            out["doc"] = parse_doc(written)
             out["written_ids"] = {"species": sp, "genes": gp, "reactions": [x[0] for x in rx]}
             import cobra.io.sbml as S
             exp = {"species": [S._f_specie_rev(m.id) for m in model.metabolites],
@@ -259,8 +413,22 @@ def case_term(spec, out, D):
         if t1 is None or t2 is None:
             continue
         trips.append("(%d, %s, %s)" % (tag, t1, t2))
-    return "(mkSCase %s true %s [%s] [%s] %d [%s])" % (cfg, obs0, "; ".join(ids), "; ".join(bounds), out["valid"],
-                                                       "; ".join(trips))
+    sm = D.ref("sm", "smodel", c_smodel(o0))
+    if "doc" in out:
+        written = "(Ok %s)" % D.ref("doc", "doc", c_doc(out["doc"])) if doc_representable(out["doc"]) is None else None
+    else:
+        written = M.c_err(out["write_error"]["err"])
+    readback = "None"
+    first = [r1 for tag, r1, r2 in out["trips"] if tag == 0]
+    if written is None:
+        written = "(Err EUnmodelled)"
+    elif first and "ok" in first[0]:
+        if smodel_representable(first[0]["ok"]) is None:
+            readback = "(Some (Ok %s))" % D.ref("sm", "smodel", c_smodel(first[0]["ok"]))
+    elif first and first[0].get("stage") == "read":
+        readback = "(Some (Err EOther))"
+    return "(mkSCase %s true %s [%s] [%s] %d [%s] %s %s %s)" % (
+        cfg, obs0, "; ".join(ids), "; ".join(bounds), out["valid"], "; ".join(trips), sm, written, readback)
 
 
 def evaluate(specs, seeds):
@@ -286,7 +454,8 @@ def diff_paths(a, b, path=""):
     if type(a) != type(b):
         return [path]
     if isinstance(a, dict):
-        return [p for k in a if k not in ("lp", "comps_private") for p in diff_paths(a[k], b.get(k), path + "/" + k)]
+        return [p for k in a if k not in ("lp", "comps_private", "rule_tree", "groups_full")
+                for p in diff_paths(a[k], b.get(k), path + "/" + k)]
     if isinstance(a, list):
         if len(a) != len(b):
             return [path]
